@@ -26,6 +26,10 @@ func cmdDump(args []string) int {
 		dumpBaseline(p)
 		return 0
 	}
+	if strings.HasPrefix(pat, "-siblings=") {
+		dumpSiblings(&Ctx{P: p}, strings.Split(strings.TrimPrefix(pat, "-siblings="), ","))
+		return 0
+	}
 	if pat == "-renames" {
 		for _, n := range renameNotes {
 			fmt.Println(n)
